@@ -456,7 +456,11 @@ func sendHelloDevice(ctx context.Context, transport Transport, c *TO2Config) (pr
 	}
 
 	// Validate the HelloDeviceHash
-	helloDeviceHash := proveOVHdr.Payload.Val.HelloDeviceHash.Algorithm.HashFunc().New()
+	helloDeviceHash, err := newHash(proveOVHdr.Payload.Val.HelloDeviceHash.Algorithm)
+	if err != nil {
+		captureErr(ctx, protocol.InvalidMessageErrCode, "")
+		return protocol.Nonce{}, nil, nil, fmt.Errorf("error hashing HelloDevice message to verify against TO2.ProveOVHdr payload's hash: %w", err)
+	}
 	if err := cbor.NewEncoder(helloDeviceHash).Encode(hello); err != nil {
 		return protocol.Nonce{}, nil, nil, fmt.Errorf("error hashing HelloDevice message to verify against TO2.ProveOVHdr payload's hash: %w", err)
 	}
@@ -617,7 +621,10 @@ func (s *TO2Server) proveOVHdr(ctx context.Context, msg io.Reader) (*cose.Sign1T
 
 	// Hash request
 	helloDeviceHash := protocol.Hash{Algorithm: ov.Header.Val.CertChainHash.Algorithm}
-	helloDeviceHasher := helloDeviceHash.Algorithm.HashFunc().New()
+	helloDeviceHasher, err := newHash(helloDeviceHash.Algorithm)
+	if err != nil {
+		return nil, fmt.Errorf("error hashing TO2.HelloDevice request: %w", err)
+	}
 	_, _ = helloDeviceHasher.Write(rawHello)
 	helloDeviceHash.Value = helloDeviceHasher.Sum(nil)
 
